@@ -286,6 +286,8 @@ class Interp:
                 eff = self.b.call_effect(c, f, s)
                 if eff is not None:
                     nxt += eff
+                    if getattr(self.b, "fault_before_effect", False) and self.b.may_raise(c, f):
+                        raised.append(s)  # ... or raise before it has had its effect (a failed hardware write changes nothing)
                     continue
                 targets = self.b.inline(c, f)
                 if not targets:
